@@ -63,6 +63,7 @@ type GhostDecl struct {
 	Default    string // value at freshly allocated references ("" = unknown)
 	Dispatch   bool   // reads through an interface case-split over the types that define a view of this ghost
 	Private    bool   // changed only by contracts that name it in `modifies` (a `modifies *` does not include it)
+	Volatile   bool   // never part of a frame: any call that is not pure may change it; callers know only what `ensures` say
 }
 
 type SpecDecl struct {
@@ -223,6 +224,10 @@ func parseContractSource(cs *ContractSet, file, src, pkgPath string) error {
 				return fmt.Errorf("%s:%d: bad ghost", rl.file, rl.line)
 			}
 			gd := &GhostDecl{Name: strings.TrimSpace(parts[0]), Sort: strings.TrimSpace(parts[1]), PkgPath: pkgPath}
+			if strings.HasSuffix(gd.Sort, " volatile") {
+				gd.Volatile = true
+				gd.Sort = strings.TrimSpace(strings.TrimSuffix(gd.Sort, " volatile"))
+			}
 			if strings.HasSuffix(gd.Sort, " private") {
 				gd.Private = true
 				gd.Sort = strings.TrimSpace(strings.TrimSuffix(gd.Sort, " private"))
